@@ -367,6 +367,34 @@ def c01_task(task):
                 viol.append(dict(what='; '.join(texts)[:400], case=case))
         if len(samples) < 2:
             samples.append(dict(case=case, impl=iline[:160]))
+        # an embedder may keep ONE cache dictionary (sigfields + timestamp) and hand it to several verifications: the second
+        # verification must give what it gives with a fresh copy, and the dictionary must come back unchanged
+        if i % 4 == 0 and 'returned' not in cv and not iline.startswith(('timeout', 'recursion')):
+            import copy as _copy
+            base = _copy.deepcopy(cv)
+            if rng.random() < 0.7:
+                base['timestamp'] = tsh.Pins.now + rng.choice([0, 1, -5])
+            first = rng.choice([[b'\x01' + ret], [b'\x01', ret + b'\x00'], [gen.push(b'x') + ret], scripts])
+            shared = _copy.deepcopy(base)
+            snap = lambda d: sorted((repr(k), type(v).__name__, repr(v)) for k, v in d.items())
+            s0 = snap(shared)
+            tsh.impl_run_auth(first, shared, cfg, share=True)
+            s1 = snap(shared)
+            second = scripts if first is not scripts else [b'\x01' + gen.op('IF') + gen.u16(1) + b'\x01' + gen.op('POP0') + b'\x00']
+            r_shared = tsh.impl_run_auth(second, shared, cfg, share=True)
+            r_fresh = tsh.impl_run_auth(second, base, cfg)
+            stats['shared-dict-chains'] += 1
+            bad = []
+            if s1 != s0:
+                bad.append('run_auth_scripts changed the caller\'s cache dictionary: %s -> %s' % (s0[:6], s1[:6]))
+            if r_shared != r_fresh and not r_shared.startswith(('timeout', 'recursion')) and not r_fresh.startswith(('timeout', 'recursion')):
+                bad.append('a verification gave %s with the dictionary an earlier verification had used, %s with a fresh copy of the same values'
+                           % (r_shared[:120], r_fresh[:120]))
+            if bad:
+                stats['direct-fail'] += 1
+                if len(viol) < 8:
+                    viol.append(dict(what='; '.join(bad)[:600], case=dict(first_scripts=[x.hex() for x in first], scripts=[x.hex() for x in second],
+                                     cache=tsh.cache_str(base, False), cfg=cfg.to_json())))
     model.close()
     return dict(n=n, stats=dict(stats), disagreements=dis, violations=viol, samples=samples, distinct=len(digests),
                 oracle_calls=model.oracle_calls, labels={})
@@ -636,7 +664,27 @@ def c02_task(task):
         viol.append(dict(what='single-bit corruption accepted by CHECK_SIG: %s (key %s, signature %s, sigfield1 %s, sigfield3 %s)' %
                          (bad[:6], PUBS[k0].hex(), sig0.hex(), sf0['sigfield1'].hex(), sf0['sigfield3'].hex()),
                          case=dict(key=PUBS[k0].hex(), signature=sig0.hex(), cache=tsh.cache_str(sf0, False))))
+    def _ext(tape, stack, cache):          # a signature extension an embedder passes for ONE call: it rewrites the covered fields
+        for k_ in list(cache):
+            if isinstance(k_, str) and k_.startswith('sigfield'):
+                cache[k_] = b'EXT:' + bytes(cache[k_])
+    plug0 = {k_: list(v_) for k_, v_ in tsh.F._plugins.items()}
     for it in range(n):
+        if it % 40 == 0:
+            # ... such a call happens now and then in the life of the process; the cases that follow pass no plugins
+            try:
+                tsh.F.run_script(op('GET_MESSAGE') + b'\x00', {'sigfield1': b'abc'}, plugins={'signature_extensions': [_ext]})
+                tsh.F.run_auth_scripts([op('GET_MESSAGE') + b'\x00' + op('POP0') + b'\x01'], {'sigfield1': b'abc'}, plugins={'signature_extensions': [_ext]})
+            except BaseException:
+                pass
+            now_ = {k_: list(v_) for k_, v_ in tsh.F._plugins.items()}
+            stats['per-call-plugin-runs'] += 1
+            if now_ != plug0:
+                stats['direct-fail'] += 1
+                if len(viol) < 8:
+                    viol.append(dict(what='a plugin passed to ONE run_script / run_auth_scripts call is still registered afterwards: module plugin table %r -> %r'
+                                     % ({k_: len(v_) for k_, v_ in plug0.items()}, {k_: len(v_) for k_, v_ in now_.items()}),
+                                     case=dict(script=(op('GET_MESSAGE') + b'\x00').hex(), cache='s7369676669656c6431=b616263', note='run with plugins={signature_extensions: [ext]}, then look at functions._plugins')))
         present = rng.getrandbits(8) if rng.random() < 0.7 else rng.choice([0, 1, 0xff, 3])
         cache = {'sigfield%d' % i: bytes(rng.getrandbits(8) for _ in range(rng.choice([0, 1, 3, 9])))
                  for i in range(1, 9) if (present >> (i - 1)) & 1}
